@@ -348,6 +348,13 @@ Definition transfer (W : world) (from to : N) (v : Z) : world :=
   let cur := match b1 !! to with Some x => x | None => 0 end in
   set_bals W (<[ to := cur + v ]> b1).
 
+(* extract_send_result -> ActorError::checked: what a caller reports for a failed send.  System exit
+   codes are not passed through: 4, 9, 11 become USR_UNSPECIFIED (23), the others USR_ASSERTION_FAILED *)
+Definition checked_code (c : Z) : Z :=
+  if c =? 0 then 0 else
+  if (c =? 11) || (c =? 4) || (c =? 9) then 23 else
+  if c <? 16 then 24 else c.
+
 Definition sender_t := world -> N -> N -> Z -> payload -> world * (Z * ret).
 
 Definition is_propose (o : op) : bool := match o with Propose _ _ _ => true | _ => false end.
@@ -376,7 +383,7 @@ Definition vm_send (sd : sender_t) (e : Z) (W : world) (from to : N) (value : Z)
               let W3 := add_log W2 {| ev_w := to; ev_id := id; ev_txn := t; ev_st := st';
                                       ev_bal := balance W2 to; ev_epoch := e |} in
               let '(W4, (code, r)) := sd W3 to (t_to t) (t_value t) (t_payload t) in
-              (W4, (OK, mk_ret k true code r))   (* Ok whatever the inner send answered *)
+              (W4, (OK, mk_ret k true (checked_code code) r))   (* Ok whatever the inner send answered *)
           end
       end
   end.
